@@ -11,7 +11,7 @@ Definition env_gross (flo fhi : Q) (s : option (Q * Q)) (xs : list obs) : env :=
      e_num := bind_num [("sspan.minv", Some flo); ("sspan.maxv", Some fhi);
                         ("uspan.minv", option_map fst s); ("uspan.maxv", option_map snd s);
                         ("suspect_span", option_map fst s)];
-     e_str := (fun _ => None);
+     e_str := (fun _ => None); e_bool := (fun _ => None);
      e_size := length xs |}.
 
 
@@ -27,13 +27,12 @@ Qed.
 
 (* ------------------------------------------------------------------ axds.valid_range_test *)
 
-Definition qbool (b : bool) : option Q := Some (if b then 1 else 0).
 
 Definition env_valid (lo hi : option Q) (si ei : bool) (xs : list obs) : env :=
   {| e_arr := bind_arr [("inp", xs)];
      e_num := bind_num [("valid_span.0", lo); ("valid_span.1", hi); ("True", Some 1); ("False", Some 0);
                         ("start_inclusive", qbool si); ("end_inclusive", qbool ei)];
-     e_str := (fun _ => None);
+     e_str := (fun _ => None); e_bool := (fun _ => None);
      e_size := length xs |}.
 
 Theorem skel_valid lo hi si ei xs :
